@@ -2,6 +2,7 @@ package req
 
 import (
 	"errors"
+	"fmt"
 	"net/http"
 	"strings"
 
@@ -43,6 +44,23 @@ func validMethod(method string) bool {
 	     token          = 1*<any CHAR except CTLs or separators>
 	*/
 	return len(method) > 0 && strings.IndexFunc(method, isNotToken) == -1
+}
+
+// checkRequestCookie reports a cookie that cannot be sent as the caller gave it.
+// net/http's Request.AddCookie silently drops every byte of the value that is not a
+// cookie-octet (RFC 6265: control bytes, '"', ';', '\\' and non-ASCII bytes) and only
+// rewrites CR and LF in the name, so the server would see another value or - with
+// ';' or '=' in the name - other cookies than the ones described.
+func checkRequestCookie(c *http.Cookie) error {
+	if c.Name == "" || strings.IndexFunc(c.Name, isNotToken) != -1 {
+		return fmt.Errorf("req: invalid cookie name %q", c.Name)
+	}
+	for i := 0; i < len(c.Value); i++ {
+		if b := c.Value[i]; b < 0x20 || b >= 0x7f || b == '"' || b == ';' || b == '\\' {
+			return fmt.Errorf("req: invalid byte %q in the value of cookie %q", b, c.Name)
+		}
+	}
+	return nil
 }
 
 func closeBody(r *http.Request) error {
